@@ -597,7 +597,7 @@ func runC03(c *Ctx) {
 	// ------------------------------------------------------------------------------------------------ R3
 	// the kernel is told exactly what the slot records: the mask handed to epoll_ctl(ADD/MOD) is the value of
 	// Slot.Events after the update on that path (not the flag being added or removed, not a stale copy)
-	c.rule("C03-R2k", "the event mask programmed into epoll is the slot's recorded interest mask; EPOLL_CTL_DEL only with an empty mask, EPOLL_CTL_ADD only from an empty mask", 6)
+	c.rule("C03-R2k", "the event mask programmed into epoll is the slot's recorded interest mask; EPOLL_CTL_DEL only with an empty mask, EPOLL_CTL_ADD only from an empty mask", 5)
 	{
 		createEv := p.Fn("internal", "createEvent")
 		eventsF := p.Field("internal", "Slot", "Events")
@@ -681,15 +681,37 @@ func runC03(c *Ctx) {
 				if !ok || call.Call.StaticCallee() == nil || !strings.HasPrefix(call.Call.StaticCallee().String(), "syscall.Syscall") || len(call.Call.Args) < 3 || !isConstInt(call.Call.Args[0], sysCtl) {
 					return
 				}
-				switch k, _ := constInt(call.Call.Args[2]); k {
-				case ctlOp("EPOLL_CTL_DEL"):
-					prims[fn] = "del"
-				case ctlOp("EPOLL_CTL_ADD"):
-					prims[fn] = "add"
+				kindOf := func(v ssa.Value) string {
+					switch k, _ := constInt(v); k {
+					case ctlOp("EPOLL_CTL_DEL"):
+						return "del"
+					case ctlOp("EPOLL_CTL_ADD"):
+						return "add"
+					}
+					return ""
+				}
+				if k := kindOf(call.Call.Args[2]); k != "" {
+					prims[fn] = k
+					return
+				}
+				// the operation is a parameter of a shared primitive (ctl(op, ...)): its callers that pass a constant are
+				// the primitives
+				if prm, isPrm := stripConv(call.Call.Args[2]).(*ssa.Parameter); isPrm {
+					for i, q := range fn.Params {
+						if q != prm {
+							continue
+						}
+						for _, site := range p.callers(fn) {
+							if k := kindOf(site.Common().Args[i]); k != "" && site.Parent() != nil {
+								prims[site.Parent()] = k
+							}
+						}
+					}
 				}
 			})
 		}
 		nOps := 0
+		seenKind := map[string]bool{}
 		for _, fn := range internalFuncs {
 			for _, call := range allCalls(fn) {
 				kind := prims[call.Call.StaticCallee()]
@@ -697,6 +719,7 @@ func runC03(c *Ctx) {
 					continue
 				}
 				nOps++
+				seenKind[kind] = true
 				good := false
 				for _, l := range guardsOf(call.Block()) {
 					op, x, y, ok := l.cmp()
@@ -742,7 +765,7 @@ func runC03(c *Ctx) {
 				}
 			}
 		}
-		if nOps < 3 {
+		if !seenKind["del"] || !seenKind["add"] {
 			c.bad(p.Method("internal", "poller", "setRW"), "kernel removal", p.Method("internal", "poller", "setRW").Pos(), "the epoll_ctl ADD/DEL primitives or their call sites were not found (anchor moved)")
 		}
 	}
